@@ -36,9 +36,12 @@ type recStore struct {
 	lastLimit  int
 	creditIdx  int          // index of the next AddNodeBalance call within the current op
 	failAt     map[int]bool // credit calls to fail (fault injection)
+	failIDs    map[string]bool // peers whose credit fails (fault injection)
+	creditSign int
 }
 
 var errInjected = errors.New("injected store fault")
+var errLookupRPC = errors.New("contract rpc unreachable")
 
 func (r *recStore) ActiveHosts(kind string, limit int) ([]store.Node, error) {
 	ns, err := r.Store.ActiveHosts(kind, limit)
@@ -58,9 +61,18 @@ type faultBalanceStore struct {
 
 func (f *faultBalanceStore) AddNodeBalance(id store.NodeID, credit *big.Int) error {
 	f.rec.mu.Lock()
+	// faults are injected into the per-peer credits of a keep-alive, never into the client's own debit: the credits
+	// all carry the same non-zero amount, the debit that follows them the opposite sign (or zero)
+	if f.rec.creditIdx == 0 {
+		f.rec.creditSign = credit.Sign()
+	}
+	if credit.Sign() == 0 || credit.Sign() != f.rec.creditSign {
+		f.rec.mu.Unlock()
+		return f.AccountStore.AddNodeBalance(id, credit)
+	}
 	k := f.rec.creditIdx
 	f.rec.creditIdx++
-	fail := f.rec.failAt[k]
+	fail := f.rec.failAt[k] || f.rec.failIDs[string(id)]
 	f.rec.mu.Unlock()
 	if fail {
 		return errInjected
@@ -121,6 +133,7 @@ type poolComp struct {
 	paid     map[string]*big.Int
 	settleOK bool
 	readFault bool // every deposit lookup fails while set (one op)
+	lookupErr error // as readFault, with this error
 	settleFailOnce bool // the settlement fails at its first attempt within an operation and would succeed afterwards
 	settleCalls    int
 	duringNode string
@@ -184,6 +197,10 @@ func (c *poolComp) setup(t []string) string {
 		if c.readFault {
 			// the on-chain lookup fails (the wallet owner has started a withdrawal: deposit timelocked)
 			return nil, payment.ErrDepositTimelocked
+		}
+		if c.lookupErr != nil {
+			// ... or for any other reason (the contract RPC is unreachable)
+			return nil, c.lookupErr
 		}
 		if d, ok := c.deposits[string(account)]; ok {
 			return new(big.Int).Set(d), nil
@@ -250,7 +267,7 @@ func poolErrClass(err error) string {
 	switch {
 	case strings.Contains(msg, "settlement failed"):
 		return "err SettleFailed"
-	case err == payment.ErrDepositTimelocked:
+	case err == payment.ErrDepositTimelocked || err == errLookupRPC:
 		return "err DepositLookup"
 	case strings.Contains(msg, "does not match nodeURI"):
 		return "err UriIdMismatch"
@@ -542,7 +559,10 @@ func (c *poolComp) exec(t []string) (extra []string, out string, eff bool) {
 			pi := ethnode.PeerInfo{ID: id}
 			if i%2 == 1 && len(id) == 128 {
 				// the other documented way a peer names itself: by enode URI
-				pi = ethnode.PeerInfo{ID: "hash-of-" + pn, Enode: "enode://" + id + "@10.0.0.9:30303"}
+				// (whatever follows the key - any address form a node's RPC reports, parsable as a URL or not - plays
+				// no role in who the peer is)
+				addr := []string{"10.0.0.9:30303", "[::1]:30303", "[fe80::1%eth0]:30303", "10.0.0.9:30303?discport=30301", "[::]:30303", "my host:30303", "%zz:1"}[(i/2+len(peers)+int(nonce%7))%7]
+				pi = ethnode.PeerInfo{ID: "hash-of-" + pn, Enode: "enode://" + id + "@" + addr}
 			}
 			req.PeerInfo = append(req.PeerInfo, pi)
 		}
@@ -572,6 +592,12 @@ func (c *poolComp) exec(t []string) (extra []string, out string, eff bool) {
 				c.rec.failAt[k] = true
 			}
 		}
+		c.rec.failIDs = map[string]bool{}
+		if fl, ok := FindArg("failpeer", t); ok {
+			for _, f := range fl {
+				c.rec.failIDs[realID(f)] = true
+			}
+		}
 		c.rec.mu.Unlock()
 		for k := range c.outcomes {
 			delete(c.outcomes, k)
@@ -584,6 +610,7 @@ func (c *poolComp) exec(t []string) (extra []string, out string, eff bool) {
 		now := c.observedNow(who.id, before, had, t0)
 		c.rec.mu.Lock()
 		c.rec.failAt = map[int]bool{}
+		c.rec.failIDs = map[string]bool{}
 		c.rec.mu.Unlock()
 		x := []string{"now=" + TTok(now)}
 		disc := c.callsByHost("vipnode_disconnect")
@@ -758,7 +785,14 @@ func (c *poolComp) exec(t []string) (extra []string, out string, eff bool) {
 			before.Set(p)
 		}
 		t0 := time.Now().UnixNano()
+		switch get("lookupfault") {
+		case "timelock":
+			c.readFault = true
+		case "rpc":
+			c.lookupErr = errLookupRPC
+		}
 		err := c.pay.Withdraw(ctxBG, sig, sentID(who, t[3]), nonce)
+		c.readFault, c.lookupErr = false, nil
 		x := []string{"now=" + TTok(t0)}
 		if err != nil {
 			return x, poolErrClass(err), false
@@ -933,7 +967,11 @@ func genPoolMixed(r *rand.Rand, idx int, emit func(string)) {
 			if sig == "good" && r.Intn(8) == 0 {
 				sig = "oldfmt"
 			}
-			emit(fmt.Sprintf("update %s %s %s block=%d peers=%s mnow=%s", who, g.nextNonce(), sig, r.Intn(100), JoinC(ps), TTok(el)))
+			ff := ""
+			if len(ps) > 0 && r.Intn(8) == 0 {
+				ff = " failpeer=" + JoinC(ps[:1+r.Intn(len(ps))])
+			}
+			emit(fmt.Sprintf("update %s %s %s block=%d peers=%s mnow=%s%s", who, g.nextNonce(), sig, r.Intn(100), JoinC(ps), TTok(el), ff))
 		case k < 50:
 			outs := []string{}
 			for ci := 0; ci < 5; ci++ {
